@@ -3,6 +3,7 @@
 # Mutation self-test: every seeded change under /verif/seeded/<id>/patch.diff is applied to a
 # scratch git worktree of /repo (never to /repo itself), and the quick check of the owning
 # property (plus the extra checks listed in meta.json "also_run") is run from a scratch copy
+# (after a control group: the same checks against an unchanged scratch worktree must be silent)
 # of /verif with VERIF_REPO pointing at that worktree. Expected: exit 1 with a VIOLATION line.
 # Results are written to /verif/selftest/RESULTS.md. Scratch data lives under /tmp/vself and
 # is removed afterwards.
@@ -33,8 +34,30 @@ job() {
   git -C /repo worktree remove --force $wt
   rm -rf $vc
 }
-export -f job; export S
-ls /verif/seeded | grep -E "${PAT:-.}" | xargs -P $J -I{} bash -c 'job {}'
+control() {
+  # the same check, run the same way, against an unchanged scratch worktree: it has to be silent
+  p=$1
+  wt=$S/wt-control-$p; vc=$S/verif-control-$p
+  git -C /repo worktree add --detach $wt HEAD -q 2>/dev/null || { echo "$p worktree-failed" > $S/out/control.$p; return; }
+  mkdir -p $vc; rsync -a $S/base/ $vc/
+  (cd $vc && VERIF_REPO=$wt ./check $p quick > $S/out/control.$p.log 2>&1); rc=$?
+  [ $rc -ne 0 ] && echo "$p exit=$rc $(grep -m1 '^  what:' $S/out/control.$p.log | cut -c9-200)" > $S/out/control.$p
+  git -C /repo worktree remove --force $wt
+  rm -rf $vc
+}
+export -f job control; export S
+SEEDS=$(ls /verif/seeded | grep -E "${PAT:-.}")
+# control group first: a check that raises an alarm on the unchanged tree (when run like this: in the
+# background, in parallel with others) cannot be credited with killing anything
+PROPS=$(for id in $SEEDS; do python3 -c "import json;m=json.load(open('/verif/seeded/$id/meta.json'));print('\n'.join([m['property']]+(m.get('also_run') or [])))"; done | sort -u)
+echo "$PROPS" | xargs -P $J -I{} bash -c 'control {}'
+if ls $S/out/control.C* >/dev/null 2>&1 && [ -n "$(cat $S/out/control.C?? 2>/dev/null)" ]; then
+  echo "CONTROL GROUP NOT SILENT - no seeded change is run:"; cat $S/out/control.C?? 2>/dev/null
+  mkdir -p /verif/selftest; cp $S/out/control.*.log /verif/selftest/ 2>/dev/null
+  rm -rf /tmp/vself; exit 3
+fi
+rm -f $S/out/control.*
+echo "$SEEDS" | xargs -P $J -I{} bash -c 'job {}'
 mkdir -p /verif/selftest
 python3 - <<'PY'
 import glob,os,json
